@@ -419,6 +419,12 @@ class SymEngine:
             lo = self.ev(e.slice.lower, f, st) if e.slice.lower is not None else None
             hi = self.ev(e.slice.upper, f, st) if e.slice.upper is not None else None
             if e.slice.step is not None:
+                stp = self.ev(e.slice.step, f, st)
+                if lo is None and hi is None and stp == C(-1):
+                    # x[::-1]: the elements of x back to front - what reversed(x) iterates over
+                    if is_c(b) and isinstance(b[1], (tuple, bytes, str)):
+                        return C(b[1][::-1])
+                    return ("call", "ext:reversed", (b,), ())
                 return unk("step-slice")
             return self.mk_slice(b, lo, hi)
         i = self.ev(e.slice, f, st)
@@ -439,11 +445,19 @@ class SymEngine:
                 return b[3]
         if b[0] == "upd" and b[2] == i:
             return b[3]
+        if b[0] == "slice" and is_c(i) and isinstance(i[1], int) and not isinstance(i[1], bool) and i[1] >= 0 and b[2] is not None \
+                and not (is_c(b[2]) and isinstance(b[2][1], int) and b[2][1] < 0):
+            # x[a:b][k] is x[a + k] (k >= 0, a not a negative literal; an index past the slice raises either way)
+            return self.mk_sub(b[1], self.mk_bin("+", b[2], i) if i[1] else b[2])
         return ("sub", b, i)
 
     def mk_slice(self, b, lo, hi):
         if lo is not None and is_c(lo) and lo[1] in (0, None):
             lo = None
+        if hi is not None and hi[0] == "bool" and hi[1] == "or" and len(hi[2]) == 2 and hi[2][1] == C(None) \
+                and hi[2][0][0] == "un" and hi[2][0][1] == "-" and hi[2][0][2][0] == "len":
+            # x[: -len(r) or None]: everything but the last len(r) items, and everything when r is empty
+            hi = self.mk_bin("-", ("len", b), hi[2][0][2])
         if lo is None and hi is None:
             return b
         if b[0] in ("tuple", "list") and (lo is None or is_c(lo)) and (hi is None or is_c(hi)) and not any(x[0] == "star" for x in b[1]):
@@ -486,6 +500,14 @@ class SymEngine:
                 l, r = r, l
             elif not is_c(l) and not is_c(r) and tstr(l) > tstr(r):
                 l, r = r, l
+        if sym in ("+", "-") and is_c(r) and isinstance(r[1], int) and not isinstance(r[1], bool) and l[0] == "bin" and l[1] in ("+", "-") \
+                and is_c(l[3]) and isinstance(l[3][1], int) and not isinstance(l[3][1], bool):
+            # (x - 1) + 1 is x;  (x + a) - b is x + (a - b)
+            inner = l[3][1] if l[1] == "+" else -l[3][1]
+            tot = inner + (r[1] if sym == "+" else -r[1])
+            if tot == 0:
+                return l[2]
+            return ("bin", "+", l[2], C(tot)) if tot > 0 else ("bin", "-", l[2], C(-tot))
         if sym == "+":
             if l[0] in ("tuple", "list") and r[0] == l[0]:
                 return (l[0], l[1] + r[1])
@@ -612,7 +634,10 @@ class SymEngine:
                     tgs = one
         tg = tgs[0]
         if isinstance(e.func, ast.Name) and e.func.id == "len" and len(args) == 1 and tg.kind == "ext":
-            return self.mk_len(args[0])
+            return self.mk_len(args[0][1] if args[0][0] == "starlist" else args[0])
+        if tg.kind == "ext" and tg.name in ("tuple", "list") and len(args) == 1 and args[0][0] == "starlist" and not kws:
+            # tuple(rest) after `head, *rest = key`: the tail of the key (keys are tuples of nibbles, VAL4)
+            return args[0][1]
         if tg.kind == "def" and len(tgs) == 1:
             inl = self._inline_new_helper(e, tg, f, st)
             if inl is not None:
@@ -645,9 +670,23 @@ class SymEngine:
                 # a builtin that consumes an explicit iterator object is not a function of its argument:
                 # `any(it) and any(it)` asks two different questions.  The call site keeps the results apart.
                 kws = kws + (("@", (e.lineno, e.col_offset)),)
+            if tg.name == "map" and len(args) == 2 and not kws and args[0][0] in ("fn", "cls"):
+                # map(f, xs) is (f(x) for x in xs)
+                el = ("iter", args[1], "c")
+                head = ("call", "ctor:" + args[0][1], (el,), ()) if args[0][0] == "cls" else ("call", args[0][1], (el,), ())
+                return ("gen", head, (args[1],), ())
+            if tg.name == "list" and len(args) == 1 and not kws and args[0][0] == "gen":
+                return ("listcomp",) + args[0][1:]  # list(<generator expression>) is the list comprehension
             return ("call", "ext:" + tg.name, args, kws)
         if tg.kind == "cmeth":
             recv = self.ev(tg.recv, f, st)
+            if tg.meth == "join" and recv in (C(b""), C("")) and len(args) == 1 and args[0][0] in ("tuple", "list") and args[0][1] \
+                    and not any(x[0] == "star" for x in args[0][1]):
+                # b"".join((a, b, c)) is a + b + c
+                acc = args[0][1][0]
+                for x in args[0][1][1:]:
+                    acc = self.mk_bin("+", acc, x)
+                return acc
             return ("call", "m:" + tg.meth, (recv,) + args, kws)
         return ("call", "opaque:%s" % tg.name, args, kws)
 
@@ -1058,7 +1097,11 @@ class SymEngine:
             n = len(tgt.elts)
             for i, x in enumerate(tgt.elts):
                 if isinstance(x, ast.Starred):
-                    self._bind_target(x.value, unk("star"), f, st)
+                    if i == n - 1 and not any(isinstance(y, ast.Starred) for y in tgt.elts[:i]):
+                        # head, *rest = seq: rest holds seq[i:] (as a list; tuple(rest) of a tuple is that slice)
+                        self._bind_target(x.value, ("starlist", self.mk_slice(val, C(i), None)), f, st)
+                    else:
+                        self._bind_target(x.value, unk("star"), f, st)
                 else:
                     self._bind_target(x, self.mk_sub(val, C(i)), f, st)
             if val[0] not in ("tuple", "list"):
